@@ -127,6 +127,9 @@ def forRange {σ : Type} (n : Int) (body : Int → σ → Option σ) (s : σ) : 
 structure Nd (α : Type) where
   shape : List Nat
   data : List α
+  /-- does numpy's *safe* casting rule admit the array's dtype to float64?  (bool, the integer types,
+  float16/32/64: yes; longdouble, complex, object: no.)  Only the C wrapper asks. -/
+  safe : Bool := true
 
 namespace Nd
 variable {α : Type}
@@ -138,6 +141,7 @@ end Nd
 
 inductive PyErr where
   | valueError
+  | typeError
   /-- an `IndexError`, an unwritten cell, exhausted fuel: never happens (`generated_entry_eq_model`) -/
   | internal
 deriving DecidableEq, Repr
